@@ -721,8 +721,7 @@ func runHelperProperty(t *testing.T, prop, rule string) {
 
 	flush := func() {
 		if f != nil {
-			rep.CoqFiles = append(rep.CoqFiles, f.finish(t, dir))
-			rep.CaseFiles = append(rep.CaseFiles, writeJSONL(t, dir, f.name+".jsonl", jl))
+			f.finishSharded(t, dir, rep, jl, 400)
 			f, jl = nil, nil
 		}
 	}
